@@ -5,6 +5,7 @@
 package c16
 
 import (
+	"fmt"
 	"bytes"
 	"encoding/binary"
 	"math"
@@ -17,9 +18,10 @@ import (
 )
 
 type scenario struct {
-	Chance int `json:"chance"`
-	N      int `json:"n"`
-	Len    int `json:"len"`
+	Chance int  `json:"chance"`
+	N      int  `json:"n"`
+	Len    int  `json:"len"`
+	TCP    bool `json:"tcp"` // stream of TCP chunks: tag, flags and string form must survive too
 }
 
 func gen(r *harn.Rng, tier string) interface{} {
@@ -35,11 +37,79 @@ func gen(r *harn.Rng, tier string) interface{} {
 	default:
 		sc.Chance = r.Range(0, 100)
 	}
+	if r.Bool(0.15) {
+		sc.TCP = true
+		sc.N /= 10
+	}
 	return sc
+}
+
+func runTCP(env *simrt.Env, sc *scenario) {
+	type meta struct{ tag, str string }
+	var sent []meta
+	nextIdx := 0
+	forwarded := 0
+	problem := ""
+	sink := &vnet.VerifMetaSink{OnMeta: func(network, tag, str string, p []byte) {
+		if problem != "" {
+			return
+		}
+		// must be one of the chunks handed in, later than the previous one, unchanged
+		for nextIdx < len(sent) && (sent[nextIdx].tag != tag || sent[nextIdx].str != str) {
+			nextIdx++
+		}
+		if nextIdx == len(sent) || network != "tcp" {
+			problem = fmt.Sprintf("forwarded a TCP chunk (network %q, tag %q, %s) that is not an unmodified, not yet forwarded, in-order member of the stream", network, tag, str)
+			return
+		}
+		if len(p) != sc.Len {
+			problem = "payload length changed"
+			return
+		}
+		nextIdx++
+		forwarded++
+	}}
+	f, err := vnet.NewLossFilter(sink, sc.Chance)
+	if err != nil {
+		env.Infra("NewLossFilter: %v", err)
+		return
+	}
+	src := &net.TCPAddr{IP: net.IPv4(10, 0, 0, 1), Port: 1000}
+	dst := &net.TCPAddr{IP: net.IPv4(10, 0, 0, 2), Port: 2000}
+	for i := 1; i <= sc.N; i++ {
+		// the filter runs synchronously: record the chunk's identity before handing it in
+		sent = append(sent, meta{})
+		tag, str := vnet.VerifInjectTCPPrepare(src, dst, payload(uint32(i), sc.Len), func(tag, str string) { sent[len(sent)-1] = meta{tag, str} }, f)
+		_, _ = tag, str
+		if problem != "" {
+			env.Fail("C16/modified", "TCP chunk stream through LossFilter(%d): %s (chunk %d)", sc.Chance, problem, i)
+			return
+		}
+	}
+	dropped := sc.N - forwarded
+	switch {
+	case sc.Chance <= 0 && dropped != 0:
+		env.Fail("C16/dropped-with-chance-0", "chance %d: %d of %d TCP chunks dropped", sc.Chance, dropped, sc.N)
+	case sc.Chance >= 100 && forwarded != 0:
+		env.Fail("C16/forwarded-with-chance-100", "chance %d: %d of %d TCP chunks forwarded", sc.Chance, forwarded, sc.N)
+	case sc.Chance > 0 && sc.Chance < 100:
+		p := float64(sc.Chance) / 100
+		mean := float64(sc.N) * p
+		sigma := math.Sqrt(float64(sc.N) * p * (1 - p))
+		if math.Abs(float64(dropped)-mean) > 6*sigma {
+			env.Fail("C16/drop-rate-off", "chance %d: %d of %d TCP chunks dropped, expected %.0f +- %.0f (6 sigma)", sc.Chance, dropped, sc.N, mean, 6*sigma)
+			return
+		}
+		env.Probe("statistical-tcp")
+	}
 }
 
 func run(env *simrt.Env, sci interface{}) {
 	sc := sci.(*scenario)
+	if sc.TCP {
+		runTCP(env, sc)
+		return
+	}
 	next := uint32(1)
 	forwarded := 0
 	var problem string
